@@ -7,12 +7,13 @@ from fractions import Fraction
 import numpy as np
 import torch
 
-from harness import coqio
+from harness import coqio, nets
+from harness import common
 from harness.common import Check, REPO, read_src
 from translate import ops as t_ops, gatecode as t_gc
 
 THEOREMS = ["C04_multilinear", "C04_table_size", "C04_boolean_agree", "C04_range", "C04_vectorised",
-            "C04_c_template", "C04_c_template_words", "C04_casts", "C04_names", "C04_docs", "C04_comment"]
+            "C04_c_template", "C04_c_template_words", "C04_casts", "C04_names", "C04_docs", "C04_docs_worded", "C04_comment"]
 
 TRUSTED = [
     "Coq 8.16.1 kernel, coqc; vm_compute used for finite enumerations (16 gates x 4 corners); no native_compute",
@@ -229,6 +230,26 @@ def run(ck: Check):
     ok &= ck.translate("GateCode", t_gc.gen_gatecode)
     ok &= ck.translate("Tables", t_ops.gen_tables)
     ck.prove("Props/C04", THEOREMS)
+    # which documented rows (0/1 columns or worded columns) are not the function of their id: evaluated in the kernel, so that a
+    # wrong row is reported as a concrete finding and not only as a proof that no longer checks
+    rc, out, err = ck.coq_eval("c04docs", (
+        "From Coq Require Import List Bool Arith. Import ListNotations.\nFrom TLX Require Import Model.Bits Gen.Tables.\n"
+        "Definition bad_worded := map fst (filter (fun r : nat * list (bool -> bool -> bool) => negb (forallb (fun f => forallb (fun a => "
+        "forallb (fun b => Bool.eqb (f a b) (tt (fst r) a b)) [false; true]) [false; true]) (snd r))) docs_worded).\n"
+        "Definition bad_bits (t : list (nat * (bool * bool * bool * bool))) := map fst (filter (fun r => let '(g, (a, b, c, d)) := r in "
+        "negb (Bool.eqb a (tt g false false) && Bool.eqb b (tt g false true) && Bool.eqb c (tt g true false) && Bool.eqb d (tt g true true))) t).\n"
+        "Eval vm_compute in (bad_worded, bad_bits docs_table, bad_bits comment_table).\n"))
+    if rc != 0:
+        ck.broke("correspondence", "kernel evaluation of the documented tables", err[-400:])
+    else:
+        bw, bd, bc = coqio.parse_evals(out)[0]
+        doc_lines = [l for l in open(os.path.join(common.REPO, "docs/guides/logic_gates.md"), encoding="utf-8") if l.startswith("|")]
+        for what, ids in (("worded cells (operation / name / formula)", bw), ("0/1 columns of the docs table", bd), ("comment table in functional.py", bc)):
+            for g in ids:
+                row = next((l.strip() for l in doc_lines if l.split("|")[1].strip() == str(g)), None)
+                ck.disagree(f"documented gate table: {what} of id {g} are not the Boolean function of the id", {"gate": g, "row": row},
+                            expected=[nets.tt(g, a, b) for a in (0, 1) for b in (0, 1)], signature={"what": "docs", "gate": g})
+        ck.count("documented_rows_checked", 16)
     correspond(ck)
     return ck.finish()
 
